@@ -19,29 +19,42 @@ DnsHostOnly == {"lower"}
 IpHostOnly  == {"ipv4"}
 NoDefects   == {}
 OnlyDefaultStoreDeviation == {"DefaultStoreAlsoTrusted"}
+OnlyUpFrontDeviation == {"HostnameOwnerDecidedUpFront"}
+SharedRoutes == {"direct", "tunnel_https_shared_pah"}
 AllSans     == SanL
 DnsSans     == {"exact", "mismatch", "cn_only"}
 IpSans      == {"wildcard", "ip_match", "ip_mismatch"}
-QuickSans   == {"exact", "cn_only", "ip_mismatch"}
+QuickSans   == {"exact", "ip_mismatch"}
 TwoSans     == {"exact", "mismatch"}
 OneSan      == {"exact"}
 
 \* backend x route as ONE factor so that the index space is a plain product (TLS-in-TLS does not
 \* exist for pyOpenSSL)
 Stacks == <<"ssl/direct", "ssl/tunnel_http", "pyopenssl/direct", "pyopenssl/tunnel_http",
-            "ssl/tunnel_https_good", "ssl/tunnel_https_bad", "ssl/tunnel_https_pinned">>
+            "ssl/tunnel_https_good", "ssl/tunnel_https_bad", "ssl/tunnel_https_pinned",
+            "ssl/tunnel_https_shared", "ssl/tunnel_https_shared_pah">>
 StackBackend(s) == IF s \in {"pyopenssl/direct", "pyopenssl/tunnel_http"} THEN "pyopenssl" ELSE "ssl"
 StackRoute(s) == CASE s \in {"ssl/direct", "pyopenssl/direct"} -> "direct"
                    [] s \in {"ssl/tunnel_http", "pyopenssl/tunnel_http"} -> "tunnel_http"
                    [] s = "ssl/tunnel_https_good" -> "tunnel_https_good"
                    [] s = "ssl/tunnel_https_pinned" -> "tunnel_https_pinned"
+                   [] s = "ssl/tunnel_https_shared" -> "tunnel_https_shared"
+                   [] s = "ssl/tunnel_https_shared_pah" -> "tunnel_https_shared_pah"
                    [] OTHER -> "tunnel_https_bad"
 
 \* caller context x CA source as ONE factor (CAs travel inside the caller's context iff there is one)
+\* ... x the history of that context object (only for the kinds that start with check_hostname on)
 Trusts == <<"none/file", "none/data", "none/dir", "none/none",
-            "default_like/ctx", "nocheck/ctx", "mode_none/ctx", "urllib3_ctx/ctx">>
-TrustCtx(t) == CASE t = "default_like/ctx" -> "default_like" [] t = "nocheck/ctx" -> "nocheck"
-                 [] t = "mode_none/ctx" -> "mode_none" [] t = "urllib3_ctx/ctx" -> "urllib3_ctx" [] OTHER -> "none"
+            "default_like/ctx", "nocheck/ctx", "mode_none/ctx", "urllib3_ctx/ctx",
+            "default_like/ctx/after_ah", "default_like/ctx/after_fp",
+            "urllib3_ctx/ctx/after_ah", "urllib3_ctx/ctx/after_fp">>
+TrustCtx(t) == CASE t \in {"default_like/ctx", "default_like/ctx/after_ah", "default_like/ctx/after_fp"} -> "default_like"
+                 [] t = "nocheck/ctx" -> "nocheck" [] t = "mode_none/ctx" -> "mode_none"
+                 [] t \in {"urllib3_ctx/ctx", "urllib3_ctx/ctx/after_ah", "urllib3_ctx/ctx/after_fp"} -> "urllib3_ctx"
+                 [] OTHER -> "none"
+TrustHist(t) == CASE t \in {"default_like/ctx/after_ah", "urllib3_ctx/ctx/after_ah"} -> "after_ah"
+                  [] t \in {"default_like/ctx/after_fp", "urllib3_ctx/ctx/after_fp"} -> "after_fp"
+                  [] OTHER -> "fresh"
 TrustCa(t) == CASE t = "none/file" -> "file" [] t = "none/data" -> "data" [] t = "none/dir" -> "dir"
                 [] t = "none/none" -> "none" [] OTHER -> "ctx"
 
@@ -67,7 +80,7 @@ Decode(i, k) == IF k > Len(Factors) THEN <<>>
 
 CfgOfIdx(i) == LET d == Decode(i, 1) IN
     [reqs |-> d[1], ah |-> d[2], fp |-> d[3], sh |-> d[4], ctx |-> TrustCtx(d[5]), casrc |-> TrustCa(d[5]),
-     backend |-> StackBackend(d[9]), route |-> StackRoute(d[9])]
+     hist |-> TrustHist(d[5]), backend |-> StackBackend(d[9]), route |-> StackRoute(d[9])]
 SrvOfIdx(i) == LET d == Decode(i, 1) IN [issuer |-> d[6], san |-> d[7], host |-> d[8]]
 
 InLattice(i) == CfgOfIdx(i) \in Cfg /\ SrvOfIdx(i) \in Srv
@@ -78,8 +91,8 @@ ASSUME PrintT("LATTICE|" \o ToJson([factors |-> Factors, size |-> LatticeSize]))
 \* the level sequences enumerate exactly the level sets of the specification
 ASSUME /\ Range(Factors[1].levels) = ReqsL /\ Range(Factors[2].levels) = AHL /\ Range(Factors[3].levels) = FPL
        /\ Range(Factors[4].levels) = SHL /\ Range(Factors[6].levels) = IssuerL
-       /\ {<<TrustCtx(Trusts[x]), TrustCa(Trusts[x])>> : x \in DOMAIN Trusts}
-              = {<<c, a>> \in CtxL \X CaSrcL : ValidTrust(c, a)}
+       /\ {<<TrustCtx(Trusts[x]), TrustCa(Trusts[x]), TrustHist(Trusts[x])>> : x \in DOMAIN Trusts}
+              = {<<c, a, h>> \in CtxL \X CaSrcL \X HistL : ValidTrust(c, a) /\ ValidHist(c, h)}
        /\ Range(Factors[7].levels) = SanL /\ Range(Factors[8].levels) = HostL
        /\ {<<StackBackend(Stacks[x]), StackRoute(Stacks[x])>> : x \in DOMAIN Stacks}
               = {<<b, r>> \in BackendL \X RouteL : ValidStack(b, r)}
@@ -90,12 +103,25 @@ ASSUME /\ Range(Factors[1].levels) = ReqsL /\ Range(Factors[2].levels) = AHL /\ 
 \* certificate signed by a CA that is only in the default trust store.  With the deviation the model
 \* sends (clause violated); without it the model blocks.
 WitnessCfg == [reqs |-> "default", ah |-> "unset", fp |-> "unset", sh |-> "unset", ctx |-> "none", casrc |-> "data",
-               backend |-> "ssl", route |-> "direct"]
+               hist |-> "fresh", backend |-> "ssl", route |-> "direct"]
 WitnessSrv == [issuer |-> "default_store", san |-> "exact", host |-> "lower"]
 ASSUME /\ ~R_SentImpliesDemandedPassed(WitnessCfg, WitnessSrv,
                                         ObsOf(FinalKD(WitnessCfg, WitnessSrv, {"DefaultStoreAlsoTrusted"})))
        /\ RulesClause(WitnessCfg, WitnessSrv, ObsOf(FinalKD(WitnessCfg, WitnessSrv, {}))) = "ok"
        /\ FinalKD(WitnessCfg, WitnessSrv, {}).pc = "raised"
+
+\* Likewise "HostnameOwnerDecidedUpFront", on the two histories that flip check_hostname on a caller's
+\* context OBJECT before the judged handshake: (a) TLS-in-TLS with proxy_ssl_context IS ssl_context and
+\* proxy_assert_hostname set; (b) an earlier connection through the same context with assert_hostname=<name>.
+\* Server: trusted issuer, certificate for a DIFFERENT name.
+SharedWitness == [reqs |-> "default", ah |-> "unset", fp |-> "unset", sh |-> "unset", ctx |-> "default_like",
+                  casrc |-> "ctx", hist |-> "fresh", backend |-> "ssl", route |-> "tunnel_https_shared_pah"]
+ReuseWitness  == [SharedWitness EXCEPT !.hist = "after_ah", !.route = "direct"]
+OtherNameSrv  == [issuer |-> "trusted", san |-> "mismatch", host |-> "lower"]
+ASSUME \A w \in {SharedWitness, ReuseWitness} :
+          /\ ~R_SentImpliesDemandedPassed(w, OtherNameSrv, ObsOf(FinalKD(w, OtherNameSrv, {"HostnameOwnerDecidedUpFront"})))
+          /\ FinalKD(w, OtherNameSrv, {}).pc = "raised" /\ FinalKD(w, OtherNameSrv, {}).by = "urllib3-name"
+          /\ FinalKD(w, OtherNameSrv, {}).ctxCheckHostname = "off"
 
 -----------------------------------------------------------------------------
 (* stage 2: emission                                                                            *)
@@ -115,14 +141,14 @@ RECURSIVE Encode(_, _, _)
 Encode(d, k, mult) == IF k > Len(Factors) THEN 0
                       ELSE (CHOOSE x \in 1..Len(Factors[k].levels) : Factors[k].levels[x] = d[k]) * mult - mult
                            + Encode(d, k + 1, mult * Len(Factors[k].levels))
-TrustOf(cfg) == CHOOSE t \in Range(Trusts) : TrustCtx(t) = cfg.ctx /\ TrustCa(t) = cfg.casrc
+TrustOf(cfg) == CHOOSE t \in Range(Trusts) : TrustCtx(t) = cfg.ctx /\ TrustCa(t) = cfg.casrc /\ TrustHist(t) = cfg.hist
 StackOf(cfg) == CHOOSE s \in Range(Stacks) : StackBackend(s) = cfg.backend /\ StackRoute(s) = cfg.route
 IdxOf(cfg, srv) == Encode(<<cfg.reqs, cfg.ah, cfg.fp, cfg.sh, TrustOf(cfg), srv.issuer, srv.san, srv.host, StackOf(cfg)>>, 1, 1)
 
 PointRec(s) ==
     [idx |-> IdxOf(s.cfg, s.srv),
      p |-> [reqs |-> s.cfg.reqs, ah |-> s.cfg.ah, fp |-> s.cfg.fp, sh |-> s.cfg.sh, ctx |-> s.cfg.ctx,
-            casrc |-> s.cfg.casrc, backend |-> s.cfg.backend, route |-> s.cfg.route,
+            casrc |-> s.cfg.casrc, hist |-> s.cfg.hist, backend |-> s.cfg.backend, route |-> s.cfg.route,
             issuer |-> s.srv.issuer, san |-> s.srv.san, host |-> s.srv.host],
      mode |-> EffMode(s.cfg), nameterm |-> NameTerm(s.cfg),
      demanded |-> SetToSeq(AllDemanded(s.cfg)),
